@@ -49,6 +49,9 @@ def class_source(case):
         out.append("class ModeBase(StatefulAutonomous):")
         for sd in case["states"][:split]:
             out.extend(_state_lines(sd))
+        ov = case.get("base_version")
+        if ov:
+            out.extend(_state_lines(ov))  # the base class has its own version of a state that Mode redefines
         parent = "ModeBase"
     out += [f"class Mode({parent}):", f"    MODE_NAME = {case['mode_name']!r}", "    def initialize(self):"]
     body = [f"        self.register_sd_var({v['n']!r}, {v['default']!r}, add_prefix={v['prefix']})" for v in case.get("vars", [])]
@@ -155,6 +158,12 @@ def decode(code):
     case = {"states": states, "mode_name": ["Mode X", "auto1", "m"][name_c]}
     if name_c == 1 and len(states) >= 2:
         case["split"] = 1 + first_i % (len(states) - 1)
+        sd = states[-1]
+        # the last state (defined in Mode) overrides a version of another kind that lives in the base class
+        bv = {"n": sd["n"], "timed": not sd["timed"], "first": sd["first"], "sig": [], "paren": False, "script": []}
+        if bv["timed"]:
+            bv["dur"], bv["next"], bv["intdur"] = 32, None, False
+        case["base_version"] = bv
     if name_c == 2:
         case["other_mode"] = True
     case["vars"] = [{"n": f"v{i}", "default": VAR_DEFAULTS[d], "prefix": p} for i, (d, p) in enumerate(vars_c)]
